@@ -131,6 +131,9 @@ def run_case(inp):
         dfreq = inp["dfreq"]
         a = r.normal(size=shape).astype(np.float32)
         b = (0.4 * a + r.normal(size=shape)).astype(np.float32)
+        # raw-count / un-normalised magnitudes: the FSC is a ratio, any common amplitude cancels
+        amp = np.float32(inp.get("amp", 1.0))
+        a, b = a * amp, b * np.float32(inp.get("amp_b", inp.get("amp", 1.0)))
         with np.errstate(all="ignore"):
             freq, fsc = fourier_shell_correlation(a, b, dfreq)
             _, fsc_ba = fourier_shell_correlation(b, a, dfreq)
@@ -261,6 +264,10 @@ def oracle(rng, thorough, deep=False, hints=None):
         shape = fixed[it % len(fixed)] if it < len(fixed) else tuple(int(x) for x in rng.integers(4, 20, size=3))
         cases.append(dict(kind="function", shape=list(shape), seed=int(rng.integers(0, 10 ** 6)),
                           dfreq=float(max(1.0 / min(shape), rng.choice([0.03, 0.05, 0.0731, 0.11])))))
+    for it, (amp, amp_b) in enumerate([(1e8, 1e8), (1e9, 1e7), (1e-6, 1e-6), (3e4, 2e4), (1e12, 1e12), (1e-9, 1e3)][:6 if big else 3]):
+        shape = fixed[it % len(fixed)]
+        cases.append(dict(kind="function", shape=list(shape), seed=int(rng.integers(0, 10 ** 6)), amp=amp, amp_b=amp_b,
+                          dfreq=float(rng.choice([0.05, 0.0731, 0.11]))))
     for it in range(8 if big else 3):
         cases.append(dict(kind="loader", lkind="single" if it % 2 == 0 else "batch", ntomo=1 if it % 2 == 0 else 2,
                           n=int(rng.choice([8, 9, 12, 5])), box=3 if it % 3 else 5, seed=int(rng.integers(0, 10 ** 6)),
